@@ -101,3 +101,9 @@ Lemma subparser_keys_agree : strs_eqb (map fst Gen_parser_tables.subparser_table
 Proof. vm_compute. reflexivity. Qed.
 Lemma cls_args_keys_agree : set_eq_strs Gen_parser_tables.cls_args_keys cls_args_keys = true.
 Proof. vm_compute. reflexivity. Qed.
+
+(* the three list-valued composition keywords are all visited by _parse_composition *)
+Lemma comp_order_complete_now :
+  In (s_ "anyOf") Gen_parser_tables.comp_order_now /\ In (s_ "oneOf") Gen_parser_tables.comp_order_now /\
+  In (s_ "allOf") Gen_parser_tables.comp_order_now.
+Proof. vm_compute. tauto. Qed.
